@@ -29,7 +29,8 @@ func (t *Target) AccessDeniedHTTP(r *http.Request) bool {
 		return true
 	}
 
-	ip := net.ParseIP(host)
+	// a zone (fe80::1%eth0) does not change which block an address is in
+	ip := net.ParseIP(stripZone(host))
 	if ip == nil {
 		log.Printf("[WARN] failed to parse remote address %s", host)
 	}
@@ -39,8 +40,8 @@ func (t *Target) AccessDeniedHTTP(r *http.Request) bool {
 		return true
 	}
 
-	// check xff source if present
-	if xff := r.Header.Get("X-Forwarded-For"); xff != "" {
+	// check xff source if present: every line of the header
+	for _, xff := range r.Header.Values("X-Forwarded-For") {
 		// Trusting XFF headers sent from clients is dangerous and generally
 		// bad practice.  Therefore, we cannot assume which if any of the elements
 		// is the actual client address.  To try and avoid the chance of spoofed
@@ -65,6 +66,14 @@ func (t *Target) AccessDeniedHTTP(r *http.Request) bool {
 
 	// default allow
 	return false
+}
+
+// stripZone removes the zone of a scoped IPv6 address.
+func stripZone(host string) string {
+	if i := strings.IndexByte(host, '%'); i >= 0 {
+		return host[:i]
+	}
+	return host
 }
 
 // AccessDeniedTCP checks rules on the target for TCP proxy routes.
